@@ -474,6 +474,15 @@ func pool64(quick bool) []recipe64 {
 				rng(w, bk+65530, bk+65536+5)
 			}
 		}),
+		// buckets identical to a bucket of another member ({buckets 0,2,0xFFFFFFFF}, {buckets 0..3 one value each}):
+		// Xor / AndNot then empty a whole bucket while the other operand still has later buckets
+		mk("{7}", func(w *W64) { add(w, 7) }),
+		// an inner 32-bit bitmap at the offset-header threshold of the portable format: exactly 4 chunks, one a run chunk
+		mk("{bucket 1: run chunk + 3 array chunks, bucket 2: one value}", func(w *W64) {
+			rng(w, 1<<32+10, 1<<32+5000)
+			add(w, 1<<32+65536+1, 1<<32+2*65536+1, 1<<32+3*65536+1, 2<<32+5)
+		}),
+		mk("{buckets 2,3: 2^33+7, 3*2^32+9}", func(w *W64) { add(w, 2<<32+7, 3<<32+9) }),
 	}
 	cow := func(r recipe64) recipe64 {
 		return recipe64{Name: r.Name + "+cow", Build: func() *W64 {
